@@ -159,6 +159,9 @@ def fixed_cases(tier):
     # a block with 253 transactions (3-byte tx count) spending 252 outputs created in one tx
     cases.append(dict(recipes=['big252', 'sweep252'], flush='F-', prefetch=100, limit=200))
     cases.append(dict(recipes=['big252', 'sweep252'], flush='--', prefetch=100, limit=200))
+    # a transaction with more than 65,536 outputs, spends on both sides of the index-width marks
+    for fl in ('F-H', '---', '-FF'):
+        cases.append(dict(recipes=['wide', 'sweepwide', 'old'], flush=fl, prefetch=100, limit=200))
     # blocks whose coinbase touches no script hash, followed by other transactions
     for rs in itertools.product(['burn+old', 'burn+chain2', 'burn+cb', 'fan'], repeat=3):
         for fl in (('---', 'F-H', '-FF') if tier == 'quick' else
